@@ -360,7 +360,7 @@ def typed(vals, mode):
     floats, or - when all values are whole numbers - python ints in a list / tuple or an integer-typed ndarray.
     The values are the same numbers in every mode."""
     vals = [float(v) for v in vals]
-    whole = all(v == math.floor(v) and abs(v) < 2 ** 40 for v in vals)
+    whole = all(math.isfinite(v) and v == math.floor(v) and abs(v) < 2 ** 40 for v in vals)
     if mode == "int_list" and whole:
         return [int(v) for v in vals]
     if mode == "int_tuple" and whole:
